@@ -483,6 +483,7 @@ fn run_parser_cmd(args: &[String]) -> i32 {
     let text = std::fs::read_to_string(&path).expect("behaviours");
     let behs: Vec<parser_run::PBeh> = text.lines().filter(|l| !l.trim().is_empty())
         .map(|l| serde_json::from_str(l).expect("behaviour line")).collect();
+    let all_protos = args.iter().any(|a| a == "--all-protos");
     let sweep: usize = arg(args, "--sweep-stride").and_then(|s| s.parse().ok()).unwrap_or(0);
     if family == "c11t" {
         // histories in which time passes: every (history, protocol) on its own thread - they mostly sleep
@@ -538,7 +539,7 @@ fn run_parser_cmd(args: &[String]) -> i32 {
                             (false, false, false) => 6,
                             (false, false, true) => 16,
                         };
-                        if i % stride != 0 {
+                        if i % stride != 0 && !all_protos {
                             continue;
                         }
                         let inst = parser_run::make_pinst(&mut r, i + pr.v as usize * 3 + pr.public as usize);
